@@ -1078,8 +1078,9 @@ class PrepareAst:
                 else:
                     block = self.apply(inp.orelse)
 
-                block.add_bound_statement(test)
-                return block
+                # evaluate the test expression before the selected branch
+                # (bound statements of nested code blocks are not translated)
+                return out.CodeBlock([test, block])
             else:
                 assert (
                     self._context is ContextType.SEQUENTIAL
